@@ -19,6 +19,11 @@ TRUSTED_BASE = ["Spec/RebaseListing.lean: the format-31 writer and `expectedMap`
                 "ioutil.ReadFile (rebase.Read) — exercised by the correspondence check only"]
 ASSUMPTIONS = ["supplier code letters are ASCII (rune(trimmedString[0]) is a byte, the name is cut at byte 9; range over line[3:] yields "
                "runes); all other text may be any valid UTF-8",
+               "READING: a <7> letter that no line of the supplier table names is decoded to the EMPTY name, one list entry per letter (the "
+               "property says 'decoded to the supplier named for that letter in the file's own supplier table'; no supplier is named, the "
+               "positions of the other letters are kept). expectedMap demands it, about 5 % of the generated letters are outside the table",
+               "text is a sequence of code points in model, spec and theorems (List Char; the JSON text a list of code points); UTF-8 encoding "
+               "and decoding is below the model: 'byte for byte' comparisons are comparisons of the decoded strings the protocol carries",
                "nil and the empty list are identified (isoschizomers, suppliers): an empty <2> or <7> line denotes no isoschizomers / no suppliers",
                "the quantifier's 'generated listings' are TEXT: valid UTF-8. Bytes that are not UTF-8 (e.g. a Latin-1 name in <6>) are outside "
                "it; they are parsed byte-exactly but json.Marshal replaces them by U+FFFD, so Export does not parse back to the same map — "
@@ -46,10 +51,11 @@ WORDS = ["New", "England", "Biolabs", "Takara", "Bio", "Inc.", "Ltd.", "(3/21)",
          "^", "<", ">", "<9>", "<0>", "<12>", "<a>", "1>", "<1", "Unpublished", "observations.", "ATCC", "49188", "=-=-=", "http://rebase.neb.com"]
 SITE = "ACGTRYKMSWBDHVN^()/-0123456789,"
 CODES = "BCEIJKMNOQRSVXYFGHUWZabcdefg0123456789*#@<>"
+OUTSIDE = "!~?LPT\u00e9\u03b2"          # letters the generated tables never define (CODES has none of them)
 TAGRE = re.compile(r"<[1-8]>")
 
 
-SPECIAL = ['"', "\\", "&", "<", ">", "'", "/", "\u2028", "\x7f", "\u00e9", "\u00fc", "\u03b2", "\u4e2d", "\U0001F9EC", "\x01", "`", "%", "{", "}", "[", "]"]
+SPECIAL = ['"', "\\", "&", "<", ">", "'", "/", "\u2028", "\x7f", "\u00e9", "\u00fc", "\u03b2", "\u4e2d", "\U0001F9EC", "\x01", "\x08", "\x0c", "\r", "`", "%", "{", "}", "[", "]"]
 
 
 def phrase(r, lo=0, hi=8, special=0.25):
@@ -104,6 +110,8 @@ def record(r, codes, names):
     t = r.random()
     niso = 0 if t < 0.3 else (1 if t < 0.5 else r.randint(2, 12))
     isos = [(enzname(r) if r.random() < 0.9 else phrase(r, 1, 2).replace(",", ".")) or "X" for _ in range(niso)]
+    if niso >= 2 and r.random() < 0.05:
+        isos[r.randrange(niso)] = ""              # "X,,Y": an empty name among others is kept as written
     if isos and r.random() < 0.05:
         isos[-1] = with_tag(r, 2, isos[-1])
     t = r.random()
@@ -112,9 +120,14 @@ def record(r, codes, names):
         site = r.choice([" ", "\t", ""]) + site + r.choice([" ", ""])
     meth = r.choice(["", "", "3(6)", "2(5),-2(5)", "?(4)", " 3(6)", "3(6) ", phrase(r, 0, 2)])
     ncodes = 0 if (not codes or r.random() < 0.4) else r.randint(1, 15)
-    cs = "".join(r.choice(codes) for _ in range(ncodes))
+    def letters():
+        # about 5 % of the letters are NOT in the listing's table (also a non-ASCII one): decoded to the empty name
+        return "".join(r.choice(OUTSIDE) if r.random() < 0.05 else r.choice(codes) for _ in range(ncodes))
+    cs = letters()
     while re.search(r"<[1-6]>", "<7>" + cs):
-        cs = "".join(r.choice(codes) for _ in range(ncodes))
+        cs = letters()
+    if not codes and r.random() < 0.2:
+        cs = "".join(r.choice(OUTSIDE) for _ in range(r.randint(1, 3)))      # letters although the table is empty
     nmore = r.choice([0, 0, 0, 1, 2, 4])
     more = [phrase(r, 1, 25) for _ in range(nmore)]
     return [name, str(niso)] + isos + [with_tag(r, 3, site), with_tag(r, 4, meth), with_tag(r, 5, phrase(r, 0, 4)),
